@@ -136,10 +136,33 @@ class Literal(_Model):
         self.val = val
 
 
+EQNS: list = []
+
+
 class Eqn(_Model):
     def __init__(self, primitive, invars, outvars, params=None):
         self.primitive, self.invars, self.outvars, self.params = primitive, list(invars), list(outvars), dict(params or {})
         self.source_info = types.SimpleNamespace(traceback=None)
+        # frame: a staged program is shared (the staging cache hands the same Jaxpr to every later interpretation), so
+        # interpreting it must not change it
+        self._frame = (primitive, tuple(self.invars), tuple(self.outvars), dict(self.params))
+        EQNS.append(self)
+
+    def unmutated(self):
+        p0 = self._frame[3]
+        return (self.primitive is self._frame[0] and tuple(self.invars) == self._frame[1] and tuple(self.outvars) == self._frame[2]
+                and set(self.params) == set(p0) and all(self.params[k] is p0[k] or self.params[k] == p0[k] for k in p0))
+
+
+def _frame_mark():
+    return len(EQNS)
+
+
+def _frame_check(mark):
+    bad = [e for e in EQNS[mark:] if not e.unmutated()]
+    if not EQNS[mark:]:
+        return []
+    return [("staged_program_not_mutated(equations, their params and operands are as staged)", not bad)]
 
 
 class Jaxpr(_Model):
@@ -164,8 +187,10 @@ class Prim(_Model):
         self.binds = []
 
     def get_bind_params(self, params):
+        # JAX's default: the equation's OWN params dict is handed back (no copy) - writing into it writes into the
+        # staged program
         Assumed.note(API)
-        return [], dict(params)
+        return [], params
 
     def bind(self, *args, **params):
         Assumed.note(API)
@@ -284,3 +309,9 @@ def safe_map(f, *xs):
             # jax.util.safe_map asserts equal lengths: part of its contract, hence an outcome of the code under test
             raise documented(AssertionError("length mismatch: %s" % [len(a) for a in xs]))
     return [f(*a) for a in zip(*xs)]
+
+
+from ..contract import FRAME_HOOKS as _FH  # noqa: E402
+
+if not any(m is _frame_mark for m, _ in _FH):
+    _FH.append((_frame_mark, _frame_check))
